@@ -27,9 +27,6 @@ class ObjectStore_getitem:
 
 @contract("iface:File.get_uid", params={"self": "opaque:File"}, returns="str", assumed=True)
 class File_get_uid:
-    def requires(self):
-        return uid_outcome(self) >= 0 and uid_outcome(self) <= 3
-
     def raises_KeyError(self):
         return uid_outcome(self) == 1
 
@@ -41,3 +38,34 @@ class File_get_uid:
 
     def ensures(self, result):
         return result == uid_val(self)
+
+
+# ---- File interface (xandikos.store.File and its subclasses), abstractly
+ghost("file_by_ct", ["opaque:Chunks", "str", "opaque:Handlers"], "opaque:File")
+ghost("valid_file", ["opaque:File"], "bool")
+ghost("normalized_of", ["opaque:File"], "opaque:Chunks")
+ghost("blob_id", ["opaque:Chunks"], "bytes")          # git blob hash of the joined chunks (BH)
+ghost("same_handler", ["str", "str", "opaque:Handlers"], "bool")   # extension of name and content type select the same File class
+
+
+@contract("iface:File.validate", params={"self": "opaque:File"}, assumed=True)
+class File_validate:
+    def raises_InvalidFileContents(self):
+        return not valid_file(self)
+
+
+@contract("iface:File.normalized", params={"self": "opaque:File"}, returns="opaque:Chunks", assumed=True)
+class File_normalized:
+    def ensures(self, result):
+        return result == normalized_of(self)
+
+
+@contract("iface:File.describe_delta", params={"self": "opaque:File", "name": "str", "previous": "opt[opaque:File]"},
+          returns="list[str]", assumed=True)
+class File_describe_delta:
+    pass
+
+
+@contract("iface:File.describe", params={"self": "opaque:File", "name": "str"}, returns="str", assumed=True)
+class File_describe:
+    pass
